@@ -337,13 +337,16 @@ def mon_c08(h, sc, obs):
     default_filter = all(chans[0].get(k, '*') == '*' for k in ('type', 'state', 'tag', 'key', 'uses'))
     acked = any(c.get('ack') for c in chans)
     emits = [e for e in h.emits if e['what'] == 'message']
-    dels = [e for e in h.delivers if e['chan'] == chan0]
+    dels_all = [e for e in h.delivers if e['chan'] == chan0]
+    # redeliveries of unacknowledged messages (retry > 0, an acknowledging channel) are C09's subject: the lifecycle
+    # rules below look at the first generation and the first delivery of every message id
+    dels = [e for e in dels_all if not e.get('retry')]
     obs['c08.messages-generated'] += len(emits)
-    obs['c08.messages-delivered'] += len(dels)
+    obs['c08.messages-delivered'] += len(dels_all)
     # producer/consumer: every generated message delivered exactly once (per generation)
     if default_filter:
         ec = collections.Counter(e['id'] for e in emits)
-        dc = collections.Counter(e['id'] for e in dels)
+        dc = collections.Counter(e['id'] for e in dels_all)
         closed = any(o.get('op') in ('chan_close', 'unsub', 'restart') for o in h.ops) or h.by['fault']
         for i, c in ec.items():
             if dc[i] != c and not closed:
@@ -354,7 +357,11 @@ def mon_c08(h, sc, obs):
                 if c > 1:
                     out.append(V('C08', 'duplicate-message-id', '', f"message id {i} generated {c} times"))
     per = collections.defaultdict(list)
+    seen_ids = set()
     for e in emits:
+        if acked and e['id'] in seen_ids:
+            continue              # a redelivery generated by a tick
+        seen_ids.add(e['id'])
         per[(e['pid'], e['tid'])].append(e)
     reached = collections.defaultdict(list)
     for e in h.states:
